@@ -169,6 +169,8 @@ def judge(ctx, ast, sp, T, vi, v):
     from pane.errors import ConvertError
     pane = ctx.pane
     res = ctx.res
+    if 'dc_baddef' in e1.leaves_of(ast):
+        return       # (the fixture's own default, None for an int field, is not a value of the field's type: what absent data yields is not a typed value)
     if 'ndarray' in e1.leaves_of(ast):
         return       # bare ndarray = array of Any: numpy, not pane, infers the dtype (object arrays, '<U21' vs '<U1'); ndarray_int is judged
     if not values.is_interchange(v) and IDENTITY_LEAVES & e1.leaves_of(ast):
